@@ -9,9 +9,10 @@
   Parameters (trusted, not modelled):
     * `Regex`  — the regular-expression engine: `compile p = none` iff `p` is not valid RE2 syntax, otherwise
                  the predicate "the text has a match of p"; a leading `(?i)` makes the pattern case-insensitive.
-    * `sh`     — the text of a scalar: decimal integers, `true`/`false`, shortest float text.  For the SEARCH it is the
-                 text PostgreSQL prints for the value (a float64 of magnitude 1e6 … 1e15 positionally: `1000000`, not
-                 `%v`'s `1e+06`; fix search/05), for the secret SCAN `fmt`'s `%v`.
+    * `sh`     — the text of a scalar: decimal integers, `true`/`false`, float text.  For the SEARCH it is the text
+                 PostgreSQL prints for the value: floats by Spec/SearchFloat.lean (`searchSh`: shortest round-trip digits from
+                 the bit pattern, a 64-bit float positionally at every magnitude, a 32-bit one in %g layout, `NaN` /
+                 `Infinity` / `-Infinity`; fixes search/05 and /06); for the secret SCAN `fmt`'s `%v`.
     * detectors of the secret scan (keywords + `fromData`): what a detector reports depends on the WHOLE text it is
                  given, so the view of the scan is stated per cell text (`scanText`, `cellFindings`).
 
